@@ -3,6 +3,7 @@ import BipVerif.Props.C01
 import BipVerif.Props.C01Tables
 import BipVerif.Props.C02
 import BipVerif.Props.C03
+import BipVerif.Props.C04
 import BipVerif.Props.C05
 import BipVerif.Props.C06
 import BipVerif.Props.C07
